@@ -85,4 +85,31 @@ AllOutcomes == {<<"draw", r>> : r \in {"stalemate", "insufficient", "moves75", "
 
 \* winner-swapped outcome (colour mirror)
 SwapOutcome(o) == IF o[1] = "win" THEN <<"win", Other(o[2]), o[3]>> ELSE o
+
+(***************************************************************************)
+(* Value-level API of moves, rights and raw boards.                        *)
+(***************************************************************************)
+CastlingMoveOf(color, side) ==
+  <<(IF side = SideK THEN KCastleK ELSE KCastleQ), MkCell(color, K), KingHome(color),
+    MkSq((IF side = SideK THEN 6 ELSE 2), HomeRank(color))>>
+KindPromotes(kind) == IF kind \in {KPromoN, KPromoB, KPromoR, KPromoQ} THEN PromoPiece(kind) ELSE -1
+KindMatchesPiece(kind, piece) ==
+  CASE kind = KNull -> FALSE
+    [] kind = KSimple -> TRUE
+    [] kind \in {KCastleK, KCastleQ} -> piece = K
+    [] OTHER -> piece = P
+UnsetColor(cr, color) == cr - (IF HasRight(cr, color, SideQ) THEN Pow2(RightBit(color, SideQ)) ELSE 0)
+                            - (IF HasRight(cr, color, SideK) THEN Pow2(RightBit(color, SideK)) ELSE 0)
+\* destination of a possible e.p. capture: same file as the mark, rank 6 / rank 3 of the mover (whatever the mark's rank)
+EpDestOf(side, ep) == IF ep = -1 THEN -1 ELSE MkSq(FileOf(ep), EpDstRank(side))
+BackRank == <<R, N, B, Q, K, B, N, R>>
+InitialCells == [s \in Sq |->
+  CASE RankOf(s) = 0 -> MkCell(Black, BackRank[FileOf(s) + 1])
+    [] RankOf(s) = 1 -> MkCell(Black, P)
+    [] RankOf(s) = 6 -> MkCell(White, P)
+    [] RankOf(s) = 7 -> MkCell(White, BackRank[FileOf(s) + 1])
+    [] OTHER -> 0]
+InitialPos == [cells |-> InitialCells, side |-> White, castling |-> 15, ep |-> -1, hm |-> 0, fm |-> 1]
+EmptyPos == [cells |-> [s \in Sq |-> 0], side |-> White, castling |-> 0, ep |-> -1, hm |-> 0, fm |-> 1]
+
 =============================================================================
